@@ -210,9 +210,16 @@ func hotspotMod() *parserMod {
 		r.SpecificItems = map[interface{}]int64{}
 		for i, n := 0, rng.Intn(4); i < n; i++ {
 			thr := int64(rng.Intn(50))
+			if rng.Intn(6) == 0 {
+				thr = vk.PickI64(rng, 1<<31, 5000000000, 1<<40)
+			}
 			switch rng.Intn(4) {
 			case 0:
 				v := rng.Intn(1000) - 100
+				if rng.Intn(3) == 0 {
+					// values outside the int32 range (ids, timestamps): int items are platform ints
+					v = int(vk.PickI64(rng, 3000000000, -3000000000, 1<<40, 2147483648, -2147483649, 4294967296))
+				}
 				r.SpecificItems[v] = thr
 				items = append(items, fmt.Sprintf(`{"valKind":0,"valStr":%s,"threshold":%d}`, q(strconv.Itoa(v)), thr))
 			case 1:
